@@ -44,6 +44,8 @@ pub fn random_constraints(rng: &mut Rng, around: Option<&Joints>) -> ([f64; 6], 
             _ => { f[i] = dy(rng.range(-3.1, -0.2), 20); t[i] = dy(rng.range(0.2, 3.1), 20); }
         }
     }
+    // the same arcs written one whole turn away (centres beyond +-pi): limits are arcs modulo whole turns
+    if rng.below(4) == 0 { for i in 0..6 { if rng.bool() { let sh = if rng.bool() { 2.0 * PI } else { -2.0 * PI }; if f[i] != t[i] { f[i] = dy(f[i] + sh, 20); t[i] = dy(t[i] + sh, 20); } } } }
     let w = match rng.below(4) { 0 => 0.0, 1 => 1.0, _ => dy(rng.unit(), 8) };
     (f, t, w)
 }
